@@ -1529,6 +1529,29 @@ Qed.
 Definition r_t (n cmd out : String.string) (deps : list nat) (beh : behaviour) : tdef :=
   mkTD (dL n) (lit cmd) (lit "v") [] [mkOut OFile (lit out)] deps [] false false beh false.
 
+Lemma two_target_guards3 s i j ti tj :
+  i <> j -> node_at s i = Some (NTarget ti) -> node_at s j = Some (NTarget tj) ->
+  (forall k t, node_at s k = Some (NTarget t) -> k = i \/ k = j) ->
+  td_ins ti = [] -> td_ins tj = [] ->
+  length (print_label (td_label ti)) = length (print_label (td_label tj)) ->
+  print_label (td_label ti) <> print_label (td_label tj) ->
+  labels_distinct s /\ keys_apart dH s.
+Proof.
+  intros Hne Hi Hj Honly Ii Ij Hlen Hlab.
+  assert (Hcase : forall a b ta tb, a <> b -> node_at s a = Some (NTarget ta) -> node_at s b = Some (NTarget tb) ->
+            (ta = ti /\ tb = tj) \/ (ta = tj /\ tb = ti)).
+  { intros a b ta tb Hab Ha Hb.
+    destruct (Honly a ta Ha) as [-> | ->]; destruct (Honly b tb Hb) as [-> | ->]; try congruence;
+      rewrite Hi in *; rewrite Hj in *; inversion Ha; inversion Hb; auto. }
+  split.
+  - intros a b ta tb Hab Ha Hb E. destruct (Hcase a b ta tb Hab Ha Hb) as [[-> ->]|[-> ->]]; congruence.
+  - intros a b ta tb dh dh' Hab Ha Hb E.
+    assert (Hk : forall dh1 dh2, pt_key dH s ti dh1 <> pt_key dH s tj dh2).
+    { intros dh1 dh2 E'. destruct (id_key_prefix s ti dh1 Ii) as [r Hr]. destruct (id_key_prefix s tj dh2 Ij) as [r' Hr'].
+      rewrite Hr, Hr' in E'. apply app_inj_len in E'; [contradiction | exact Hlen]. }
+    destruct (Hcase a b ta tb Hab Ha Hb) as [[-> ->]|[-> ->]]; [apply (Hk dh dh' E) | apply (Hk dh' dh); auto].
+Qed.
+
 Lemma two_target_guards s i j ti tj :
   i <> j -> node_at s i = Some (NTarget ti) -> node_at s j = Some (NTarget tj) ->
   (forall k t, node_at s k = Some (NTarget t) -> k = i \/ k = j) ->
@@ -1539,20 +1562,9 @@ Lemma two_target_guards s i j ti tj :
   guards dH s.
 Proof.
   intros Hne Hi Hj Honly Hno Ii Ij Ci Cj Hlen Hlab.
-  assert (Hcase : forall a b ta tb, a <> b -> node_at s a = Some (NTarget ta) -> node_at s b = Some (NTarget tb) ->
-            (ta = ti /\ tb = tj) \/ (ta = tj /\ tb = ti)).
-  { intros a b ta tb Hab Ha Hb.
-    destruct (Honly a ta Ha) as [->|->]; destruct (Honly b tb Hb) as [->|->]; try congruence;
-      rewrite Hi in *; rewrite Hj in *; inversion Ha; inversion Hb; auto. }
-  constructor.
-  - exact Hno.
-  - intros a b ta tb Hab Ha Hb E. destruct (Hcase a b ta tb Hab Ha Hb) as [[-> ->]|[-> ->]]; congruence.
-  - intros a b ta tb dh dh' Hab Ha Hb E.
-    assert (Hk : forall dh1 dh2, pt_key dH s ti dh1 <> pt_key dH s tj dh2).
-    { intros dh1 dh2 E'. destruct (id_key_prefix s ti dh1 Ii) as [r Hr]. destruct (id_key_prefix s tj dh2 Ij) as [r' Hr'].
-      rewrite Hr, Hr' in E'. apply app_inj_len in E'; [contradiction | exact Hlen]. }
-    destruct (Hcase a b ta tb Hab Ha Hb) as [[-> ->]|[-> ->]]; [apply (Hk dh dh' E) | apply (Hk dh' dh); auto].
-  - intros a ta Ha. destruct (Honly a ta Ha) as [->|->]; [rewrite Hi in Ha | rewrite Hj in Ha]; inversion Ha; subst; assumption.
+  destruct (two_target_guards3 s i j ti tj Hne Hi Hj Honly Ii Ij Hlen Hlab) as [G2 G3].
+  constructor; [exact Hno | exact G2 | exact G3 |].
+  intros a ta Ha. destruct (Honly a ta Ha) as [-> | ->]; [rewrite Hi in Ha | rewrite Hj in Ha]; inversion Ha; subst; assumption.
 Qed.
 
 (* (a) independence has to look through aliases: i depends on j through an alias only *)
@@ -1607,4 +1619,103 @@ Proof.
   split; [reflexivity|]. split; [reflexivity|]. split; [vm_compute; intuition lia|].
   split; [exact rb_guards|]. split; [intros k r Hr; discriminate Hr|].
   intros [B1 _ _ _ _ _ _ _]. vm_compute in B1. discriminate B1.
+Qed.
+
+(* (c) a cache that lost a blob is order dependent: y's stored result names a blob that is missing from the
+   CAS and that x's execution happens to add; y is a hit after x and is executed before x *)
+Definition rc_tx : tdef := r_t "x" "cx" "ox" [] BNormal.
+Definition rc_ty : tdef := r_t "y" "cy" "oy" [] BNormal.
+Definition rc_s : sources := mkSrc [NTarget rc_tx; NTarget rc_ty] [].
+Definition rc_cache : cache :=
+  mkCache [(pt_key dH rc_s rc_ty [],
+            mkRes (lit "oh") [(out_def (mkOut OFile (lit "oy")), content_of rc_s rc_tx 0 (mkOut OFile (lit "ox")) [])])]
+          [] [].
+Definition rc_b : bstate := build_init rc_s (mkWorld [] []) rc_cache.
+
+Lemma rc_guards : guards dH rc_s.
+Proof.
+  apply (two_target_guards rc_s 0 1 rc_tx rc_ty); try reflexivity; try discriminate.
+  - intros k t Hk. pose proof (Build_c15_proofs.node_at_lt _ _ _ Hk) as Hlt. cbn in Hlt.
+    destruct k as [|[|k]]; try lia; auto.
+  - vm_compute. repeat constructor; simpl; intuition discriminate.
+Qed.
+
+Theorem swap_incomplete_cache_refuted :
+  exists s sel b i j,
+    indep s i j /\ guards dH s /\ ~ cache_complete (b_cache b) /\
+    ~ beq (step dH d_cfg s sel (step dH d_cfg s sel b i) j) (step dH d_cfg s sel (step dH d_cfg s sel b j) i).
+Proof.
+  exists rc_s, [0; 1], rc_b, 0, 1.
+  split; [vm_compute; intuition lia|]. split; [exact rc_guards|]. split.
+  - intro Hcc.
+    assert (Hr : rlookup (pt_key dH rc_s rc_ty []) (c_results (b_cache rc_b)) =
+                 Some (mkRes (lit "oh") [(out_def (mkOut OFile (lit "oy")),
+                                          content_of rc_s rc_tx 0 (mkOut OFile (lit "ox")) [])])).
+    { cbn [rc_b build_init b_cache rc_cache c_results rlookup]. rewrite str_eqb_refl. reflexivity. }
+    apply (Hcc _ _ Hr _ _ (or_introl eq_refl)). reflexivity.
+  - intros [B1 _ _ _ _ _ _ _]. vm_compute in B1. discriminate B1.
+Qed.
+
+(* (d) declared outputs of a target without a command are whatever sits in the workspace: a file holding
+   "D"++q and a directory whose canonical bytes are q have the same digest in the model, and the blob the
+   CAS keeps under it is the one of whichever target completes first *)
+Definition rd_tx : tdef :=
+  mkTD (dL "x") [] (lit "v") [] [mkOut OFile (lit "ox")] [] [] false false BNormal false.
+Definition rd_ty : tdef :=
+  mkTD (dL "y") [] (lit "v") [] [mkOut ODir (lit "oy")] [] [] false false BNormal false.
+Definition rd_s : sources := mkSrc [NTarget rd_tx; NTarget rd_ty] [].
+Definition rd_b : bstate :=
+  build_init rd_s (mkWorld [(lit "p/ox", PFile (lit "Dq")); (lit "p/oy", PFile (lit "q"))] []) empty_cache.
+
+Theorem swap_cmdless_outputs_refuted :
+  exists s sel b i j,
+    indep s i j /\ no_overwrite s /\ labels_distinct s /\ keys_apart dH s /\ cache_complete (b_cache b) /\
+    ~ beq (step dH d_cfg s sel (step dH d_cfg s sel b i) j) (step dH d_cfg s sel (step dH d_cfg s sel b j) i).
+Proof.
+  exists rd_s, [0; 1], rd_b, 0, 1.
+  split; [vm_compute; intuition lia|].
+  split; [unfold no_overwrite; vm_compute; repeat constructor; simpl; intuition discriminate|].
+  assert (HG : labels_distinct rd_s /\ keys_apart dH rd_s).
+  { apply (two_target_guards3 rd_s 0 1 rd_tx rd_ty); try reflexivity; try discriminate.
+    intros k t Hk. pose proof (Build_c15_proofs.node_at_lt _ _ _ Hk) as Hlt. cbn in Hlt.
+    destruct k as [|[|k]]; try lia; auto. }
+  split; [exact (proj1 HG)|]. split; [exact (proj2 HG)|]. split; [intros k r Hr; discriminate Hr|].
+  intros [_ _ _ _ _ _ _ B8]. specialize (B8 (lit "Dq")). vm_compute in B8. discriminate B8.
+Qed.
+
+(* ================================================================== further non-vacuity *)
+(* the congruence on two states that differ as lists *)
+Example d_congr_nonvacuous :
+  let b := step dH d_cfg d_s d_sel d_b0 0 in
+  let b12 := step dH d_cfg d_s d_sel (step dH d_cfg d_s d_sel b 1) 2 in
+  let b21 := step dH d_cfg d_s d_sel (step dH d_cfg d_s d_sel b 2) 1 in
+  b_exec b12 <> b_exec b21 /\
+  beq (step dH d_cfg d_s d_sel b12 3) (step dH d_cfg d_s d_sel b21 3).
+Proof.
+  cbv zeta. split; [vm_compute; intro E; discriminate E|].
+  apply (step_congr dH dH_inj d_cfg d_s d_sel eq_refl eq_refl). exact d_swap_nonvacuous.
+Qed.
+
+(* the decidable guard, with the hex digest of HashKey_proofs.v: the diamond satisfies all guards *)
+Lemma d_prefix_free : labels_prefix_free d_s.
+Proof.
+  intros i j ti tj Hne Hi Hj. pose proof (d_node i _ Hi). pose proof (d_node j _ Hj).
+  destruct i as [|[|[|[|i]]]]; try lia; destruct j as [|[|[|[|j]]]]; try lia; try (exfalso; apply Hne; reflexivity);
+    inversion Hi; inversion Hj; subst; reflexivity.
+Qed.
+
+Example d_guards_hex : guards hex_enc d_s.
+Proof.
+  constructor.
+  - exact (g_no _ _ d_guards).
+  - exact (labels_distinct_prefix_free d_s d_prefix_free).
+  - exact (keys_apart_prefix_free hex_enc d_s hex_enc_inj hex_enc_no_us d_prefix_free).
+  - exact (g_cmd _ _ d_guards).
+Qed.
+
+Lemma guards_prefix_free (H : str -> str) s :
+  (forall x y, H x = H y -> x = y) -> (forall x, ~ In ch_us (H x)) ->
+  labels_prefix_free s -> keys_apart H s /\ labels_distinct s.
+Proof.
+  intros Hi Hh Hp. split; [exact (keys_apart_prefix_free H s Hi Hh Hp) | exact (labels_distinct_prefix_free s Hp)].
 Qed.
